@@ -76,6 +76,15 @@ S_CONT_MORE = [
     "if c == 1:\n g = Normal(0, 1)\nelse:\n g = Uniform(0, 1)\nend\nx = x + g",
 ]
 
+S_ALIAS = [
+    "if c > d:\n x = x + 1\nend",
+    "if d < c:\n y = y + 1\nend",
+    "if c + d == 1:\n x = x - 1\nend",
+    "d = Bernoulli(1/2)",
+    "c = Bernoulli(1/3)",
+    "if c > d:\n y = y + 2\nelse:\n c = 1 - d\nend",
+]
+
 GUARDS = ["true", "c == 1"]
 GUARDS_MORE = ["c < 2", "c == 1 && d == 0", "!(c == 0)", "c >= 1/2"]
 
